@@ -318,9 +318,14 @@ def model_line(p, rows, fuel=FUEL):
     return "%d %d %d %s | %s" % (fuel, n, k, flat, prog_sx(p))
 
 
-def run_model(exe, cases, fuel=FUEL, shards=None):
-    """cases: list of (prog, rows) -> list of dicts (JSON answers of ocaml/lmmx_drv.ml); sharded over processes"""
-    import concurrent.futures
+MODEL_CASE_TIMEOUT_S = 20
+
+
+def run_model(exe, cases, fuel=FUEL, shards=None, case_timeout=MODEL_CASE_TIMEOUT_S):
+    """cases: list of (prog, rows) -> list of dicts (JSON answers of ocaml/lmmx_drv.ml); sharded over processes.
+    The interpreter has depth fuel only, so a program with very many calls can take long: every case gets `case_timeout`
+    seconds, after which the driver is restarted and the case answers {"timeout": true} (counted, not compared)."""
+    import concurrent.futures, select
     lines = [model_line(p, rows, fuel) for p, rows in cases]
     if not lines:
         return []
@@ -328,11 +333,36 @@ def run_model(exe, cases, fuel=FUEL, shards=None):
     chunks = [lines[i::shards] for i in range(shards)]
 
     def work(chunk):
-        pr = subprocess.run([exe], input="\n".join(chunk) + "\n", stdout=subprocess.PIPE, stderr=subprocess.PIPE, text=True, timeout=1800)
-        out = [l for l in pr.stdout.split("\n") if l]
-        if pr.returncode != 0 or len(out) != len(chunk):
-            raise RuntimeError("model driver failed rc=%s answered=%d/%d %s" % (pr.returncode, len(out), len(chunk), pr.stderr[-500:]))
-        return [json.loads(l) for l in out]
+        out = []
+        pr = None
+        def start():
+            return subprocess.Popen([exe], stdin=subprocess.PIPE, stdout=subprocess.PIPE, stderr=subprocess.DEVNULL, text=True, bufsize=1)
+        try:
+            pr = start()
+            for line in chunk:
+                try:
+                    pr.stdin.write(line + "\n")
+                    pr.stdin.flush()
+                except BrokenPipeError:
+                    raise RuntimeError("model driver died")
+                ready, _, _ = select.select([pr.stdout], [], [], case_timeout)
+                if not ready:
+                    pr.kill(); pr.wait()
+                    out.append({"timeout": True})
+                    pr = start()
+                    continue
+                ans = pr.stdout.readline()
+                if not ans:
+                    raise RuntimeError("model driver failed rc=%s after %d answers" % (pr.poll(), len(out)))
+                out.append(json.loads(ans))
+        finally:
+            if pr is not None:
+                try:
+                    pr.stdin.close()
+                except Exception:
+                    pass
+                pr.kill(); pr.wait()
+        return out
     res = [None] * len(lines)
     with concurrent.futures.ThreadPoolExecutor(max_workers=shards) as ex:
         for si, ans in enumerate(ex.map(work, chunks)):
